@@ -40,11 +40,15 @@ def judge(ctx, program):
         scope_obj = ctx.scopes.get(name)
         accepted = log[l_idx + 1][4][1] if l_idx + 1 < len(log) and log[l_idx + 1][0] == 'scope-children' else {}
         # F: failures of direct children, in order of occurrence, before the block was left
-        F, Ftimes = [], []
+        F, Ftimes, Stimes = [], [], []
         for i in range(e_idx, l_idx):
             r = log[i]
             if r[0] == 'abort' and r[1] in accepted:
                 x = r[4]
+                if isinstance(x, (TaskCancelled, TaskClosed)):
+                    # a child that ends with the cancellation of a task it awaited has failed (the block is aborted at that
+                    # time) although a Concurrent never lists it
+                    Stimes.append(r[3])
                 if isinstance(x, (GeneratorExit, CancelTask)) or isinstance(x, SUPPRESSED):
                     continue
                 if isinstance(x, Interrupt):
@@ -106,7 +110,7 @@ def judge(ctx, program):
                 if isinstance(c, SUPPRESSED) or isinstance(c, Interrupt) or c is body:
                     msgs.append('Concurrent of block %s contains %s' % (name, describe(c)))
         # promptness: the block ends at the time of the first failure
-        first = [t for t in Ftimes[:1]] + ([body_time] if body is not None else [])
+        first = [t for t in Ftimes[:1]] + Stimes[:1] + ([body_time] if body is not None else [])
         if first:
             t0 = min(first)
             if log[l_idx][3] != t0:
